@@ -80,7 +80,7 @@ CLAIMS["C11"] = {
 CLAIMS["C08"] = {
     "category": "exploration",
     "technique": "reference-model oracle (R-BIF, independent Python reference of the listed built-ins) over observed invocations by warm evaluators (first use over a decoy scope, repetition), arguments as names, literals and value-preserving expressions + metamorphic named-vs-positional monitor; 10 % replay on ASan in the thorough tier",
-    "text": "Seeded and enumerated argument tuples are bound to scope names (partly spelled as literals) and invoked through the real parser and evaluator positionally and with named parameters in several orders: every start and length from -(L+2) to L+2 over ASCII/BMP/astral strings and lists of length 0..8 with nulls, nesting and duplicates; 1.0-style and fractional positions; values near 2^63/2^64; every function x arity 0..4 over 16 value kinds; regex, number() and equality grids. Every observed value is compared with R-BIF (written from DMN 1.3 tables 72-76, self-checked on 65 examples of those tables) and every named invocation with its positional twin; panics are violations. Quick ~0.4 M calls, thorough ~5 M.",
+    "text": "(Size-boundary class: every list and string function also over lists and strings of 16-300 items / characters, all-strings, all-numbers, mixed, with duplicates.) Seeded and enumerated argument tuples are bound to scope names (partly spelled as literals) and invoked through the real parser and evaluator positionally and with named parameters in several orders: every start and length from -(L+2) to L+2 over ASCII/BMP/astral strings and lists of length 0..8 with nulls, nesting and duplicates; 1.0-style and fractional positions; values near 2^63/2^64; every function x arity 0..4 over 16 value kinds; regex, number() and equality grids. Every observed value is compared with R-BIF (written from DMN 1.3 tables 72-76, self-checked on 65 examples of those tables) and every named invocation with its positional twin; panics are violations. Quick ~0.4 M calls, thorough ~5 M.",
     "note": "R-BIF (lib/rbif.py) is trusted. Where the specification supports two readings (singleton-list conversion of arguments, explicit null for optional parameters, non-integer lengths) both results are accepted; regex functions are decided only on a validated subset common to XPath, Rust regex and Python re; string() of lists/contexts, custom sort orders and date min/max are undecided. Aggregates within 2 ulp.",
     "design_ref": "DESIGN.md §3 C08",
 }
@@ -146,15 +146,15 @@ CLAIMS["C10"] = {
 CLAIMS["C13"] = {
     "category": "exploration",
     "technique": "runtime invariant monitors next to the observed state (scope snapshot before / after parse and evaluate, around decision-table evaluators, input-context snapshot around evaluate_invocable) + history checker over repeated interleaved evaluations (each compared with the same evaluation made alone on a freshly prepared evaluator) + parse histories on one long-lived scope object compared with the same text on a fresh scope object and thread",
-    "text": "Expressions forced through the constructs that push temporary contexts (context literals, filters, for / some / every, invocations, unary tests, paths) are parsed and evaluated 3x in scopes of 1-4 layers while the driver renders the scope before the parse, after it and after every evaluation; successful parses through all six entry points are checked the same way; histories of 200-2000 steps evaluate 8 prepared evaluators over 4 long-lived scopes in random order and compare every observation with the first one of the same pair and the scope with its initial rendering; generated DMN models (boxed contexts, invocations, BKMs, services, tables) have every (invocable, input) pair called 3x interleaved in random order with the input context rendered before and after; parse histories (phase 6): 4-10 texts parsed (half of the introducers of local names parsed only) and evaluated one after the other over ONE long-lived scope object, each compared with the same text over a fresh scope object with the same bindings on a fresh thread.",
+    "text": "(Incl. built-ins over long arguments, 17-257 items, so that a change of algorithm with the size is under the repeatability monitors.) Expressions forced through the constructs that push temporary contexts (context literals, filters, for / some / every, invocations, unary tests, paths) are parsed and evaluated 3x in scopes of 1-4 layers while the driver renders the scope before the parse, after it and after every evaluation; successful parses through all six entry points are checked the same way; histories of 200-2000 steps evaluate 8 prepared evaluators over 4 long-lived scopes in random order and compare every observation with the first one of the same pair and the scope with its initial rendering; generated DMN models (boxed contexts, invocations, BKMs, services, tables) have every (invocable, input) pair called 3x interleaved in random order with the input context rendered before and after; parse histories (phase 6): 4-10 texts parsed (half of the introducers of local names parsed only) and evaluated one after the other over ONE long-lived scope object, each compared with the same text over a fresh scope object with the same bindings on a fresh thread.",
     "note": "The scope's Display rendering is taken as a faithful witness of its contents (what it does not show - a cache inside the scope object - is covered by the parse histories); values depending on the current date are not generated.",
     "design_ref": "DESIGN.md §3 C13",
 }
 
 CLAIMS["C20"] = {
     "category": "exploration",
-    "technique": "concurrency stress (free phase with hook-injected delays, hammer phase on one invocable with few identical inputs, rendezvous monitor), logical-clock event log checked against expectations computed for every call alone (fresh evaluator on a fresh thread), lock-poison probe, cross-talk tags; ThreadSanitizer build with the decNumber C sources instrumented",
-    "text": "One Arc<ModelEvaluator> per model (regular-expression, numeric and temporal-with-zones decisions, a boxed context using a knowledge model, a decision service; generated graphs with nested decisions, BKM chains, tables and services) is shared by 2, 3, 4, 8 and 16 threads released by a start barrier, each running a seeded permutation of 60-400 calls while the model-evaluator verification hook injects seeded yields / spins / sleeps after the read guards are taken; every call is logged against one logical clock and its result compared with the sequential result of the same (invocable, input); each repetition ends with rendezvous rounds in which the hook holds K = thread-count evaluations inside the evaluator simultaneously (impossible if any write lock were taken on the path), then the nine locks are probed for poison and the hook payloads for another call's tag. The same workload runs on a ThreadSanitizer build (std rebuilt, C sources instrumented); reports with dmntk or decNumber frames are violations. Quick 40 repetitions (~45k call events, ~280k overlapping pairs, concurrency up to 16), thorough 1500.",
+    "technique": "concurrency stress (cold-start phase: first evaluations of every invocable made by all threads together on a fresh evaluator; free phase with hook-injected delays, hammer phase on one invocable with few identical inputs, rendezvous monitor), logical-clock event log checked against expectations computed for every call alone (fresh evaluator on a fresh thread), lock-poison probe, cross-talk tags; ThreadSanitizer build with the decNumber C sources instrumented",
+    "text": "One Arc<ModelEvaluator> per model (regular-expression, numeric and temporal-with-zones decisions, a boxed context using a knowledge model, a decision service; generated graphs with nested decisions, BKM chains, tables and services) (plus a decision that calls a decision service as a function) is shared by 2, 3, 4, 8 and 16 threads; before the shared evaluators are used, each model is built afresh twice per repetition and the threads make the FIRST evaluation of each of its invocables together behind a barrier (what is prepared lazily on first use is prepared under contention); then the evaluators are shared by the threads released by a start barrier, each running a seeded permutation of 60-400 calls while the model-evaluator verification hook injects seeded yields / spins / sleeps after the read guards are taken; every call is logged against one logical clock and its result compared with the sequential result of the same (invocable, input); each repetition ends with rendezvous rounds in which the hook holds K = thread-count evaluations inside the evaluator simultaneously (impossible if any write lock were taken on the path), then the nine locks are probed for poison and the hook payloads for another call's tag. The same workload runs on a ThreadSanitizer build (std rebuilt, C sources instrumented); reports with dmntk or decNumber frames are violations. Quick 40 repetitions (~45k call events, ~280k overlapping pairs, concurrency up to 16), thorough 1500.",
     "note": "Only the interleavings that occurred are covered. Termination is bounded progress (gate 20 s, repetition 180 s, re-run alone 300 s). If the TSan build is unavailable the check says so and decides on the dbg build only.",
     "design_ref": "DESIGN.md §3 C20",
 }
